@@ -172,7 +172,7 @@ def _run_eq(job):
     return run
 
 
-def _concrete_maze(kind, r, c, tag, L, inputs, sol_dtype=np.int64):
+def _concrete_maze(kind, r, c, tag, L, inputs, sol_dtype=np.int64, ends_as_arrays=False):
     cl = np.zeros((2, r, c), dtype=np.bool_)
     for d in range(2):
         for i in range(r):
@@ -181,8 +181,10 @@ def _concrete_maze(kind, r, c, tag, L, inputs, sol_dtype=np.int64):
     if kind == "LatticeMaze":
         return _cls(kind)(connection_list=cl)
     if kind == "TargetedLatticeMaze":
-        return _cls(kind)(connection_list=cl, start_pos=(inputs.get(f"{tag}si", 0), inputs.get(f"{tag}sj", 0)),
-                          end_pos=(inputs.get(f"{tag}ei", 0), inputs.get(f"{tag}ej", 0)))
+        st, en = (inputs.get(f"{tag}si", 0), inputs.get(f"{tag}sj", 0)), (inputs.get(f"{tag}ei", 0), inputs.get(f"{tag}ej", 0))
+        if ends_as_arrays:  # endpoints handed over as integer arrays of the given dtype (as loaders and tokenizers do) instead of tuples
+            st, en = np.array(st, dtype=sol_dtype), np.array(en, dtype=sol_dtype)
+        return _cls(kind)(connection_list=cl, start_pos=st, end_pos=en)
     cells = [[inputs.get(f"{tag}p{k}i", 0), inputs.get(f"{tag}p{k}j", 0)] for k in range(L)]
     return _cls(kind)(connection_list=cl, solution=np.array(cells, dtype=sol_dtype))
 
@@ -247,8 +249,8 @@ def _run_hash(job):
                     ctx.solver.model().eval(v, model_completion=True).as_long())
                 for k, v in ctx.inputs.items()} if ctx.check() == z3.sat else {}
         obs = []
-        for dt in (np.int8, np.int64):
-            m2 = _concrete_maze(kind, r, c, "a", L, vals, sol_dtype=dt)
+        for dt in (np.int8, np.int64, np.int16):
+            m2 = _concrete_maze(kind, r, c, "a", L, vals, sol_dtype=dt, ends_as_arrays=True)
             try:
                 same = bool(m1 == m2)
                 h2 = hash(m2)
@@ -257,8 +259,8 @@ def _run_hash(job):
             except Exception as e:
                 obs.append((f"hash/eq of an equal copy never raises (got {type(e).__name__})", z3.BoolVal(False)))
                 continue
-            obs.append((f"equal copy (solution dtype {np.dtype(dt).name}) compares equal", z3.BoolVal(same)))
-            obs.append((f"equal copy (solution dtype {np.dtype(dt).name}) has the same hash", z3.BoolVal(h1 == h2)))
+            obs.append((f"equal copy (solution / endpoint dtype {np.dtype(dt).name}) compares equal", z3.BoolVal(same)))
+            obs.append((f"equal copy (solution / endpoint dtype {np.dtype(dt).name}) has the same hash", z3.BoolVal(h1 == h2)))
             obs.append(("a set de-duplicates equal mazes", z3.BoolVal(len({m1, m2}) == 1)))
         return obs
 
@@ -267,7 +269,7 @@ def _run_hash(job):
 
 def _replay_hash(job, inputs, notes):
     kind, (r, c), L = job["kind"], job["shape"], job.get("L", 2)
-    ms = [_concrete_maze(kind, r, c, "a", L, inputs, sol_dtype=dt) for dt in (np.int64, np.int8, np.int64)]
+    ms = [_concrete_maze(kind, r, c, "a", L, inputs, sol_dtype=dt, ends_as_arrays=arr) for dt, arr in ((np.int64, False), (np.int8, True), (np.int64, True), (np.int16, True))]
     try:
         hs = [hash(m) for m in ms]
     except Inconclusive:
@@ -275,7 +277,7 @@ def _replay_hash(job, inputs, notes):
     except Exception as e:
         return f"hash-raises:{kind} | hash({kind}) raised {type(e).__name__}: {str(e)[:100]}"
     if not (ms[0] == ms[1]) or len(set(hs)) != 1 or len(set(ms)) != 1:
-        return f"hash-inconsistent:{kind} | equal {kind} mazes (solution dtypes int64/int8): eq={ms[0] == ms[1]} hashes={hs} set size={len(set(ms))}"
+        return f"hash-inconsistent:{kind} | equal {kind} mazes (solution / endpoint arrays of dtypes int64, int8, int16 and tuples): eq={ms[0] == ms[1]} hashes={hs} set size={len(set(ms))}"
     return None
 
 
